@@ -82,6 +82,12 @@ const PROGRAMS: &[(&str, &str, &str, &str)] = &[
      "(define c9 0)",
      "(begin (set! c9 (+ c9 (length (quote (\"s0\" (v0 0) \"s1\" (v1 1) \"s2\" (v2 2) \"s3\" (v3 3) \"s4\" (v4 4) \"s5\" (v5 5) \"s6\" (v6 6) \"s7\" (v7 7) \"s8\" (v8 8) \"s9\" (v9 9) \"s10\" (v10 10) \"s11\" (v11 11) \"s12\" (v12 12) \"s13\" (v13 13) \"s14\" (v14 14) \"s15\" (v15 15) \"s16\" (v16 16) \"s17\" (v17 17) \"s18\" (v18 18) \"s19\" (v19 19)))))) (if (> c9 0) (set! c9 (+ c9 1)) 'no))",
      "c9"),
+    // the setup has recursed 20 000 deep (the VM stack has grown and keeps its capacity); the probes fail 100 and 3
+    // frames deep: their traces must be those of a VM that never recursed deeply
+    ("after-deep-recursion",
+     "(define c10 0) (define (deepen n) (if (= n 0) 0 (+ 1 (deepen (- n 1))))) (define dd (deepen 20000))",
+     "(begin (set! c10 (+ c10 1)) (if (> c10 0) (set! c10 (+ c10 (deepen 5))) 'no))",
+     "c10 (pf 100)"),
     ("let-family",
      "(define c6 '())",
      "(let* ((a 1) (b (+ a 1))) (letrec ((ev? (lambda (n) (if (= n 0) #t (od? (- n 1))))) (od? (lambda (n) (if (= n 0) #f (ev? (- n 1)))))) (set! c6 (cons (list a b (ev? 4)) c6)) (cond ((ev? b) (set! c6 (cons 'even c6)) 'e) (else 'o))))",
@@ -244,6 +250,24 @@ struct St {
     baseline_trace: String,
 }
 
+/// The stack trace a fresh VM reports for the failing call `call` of pf (cached per thread).
+fn baseline_trace_for(call: &str) -> String {
+    thread_local! {
+        static CACHE: std::cell::RefCell<std::collections::HashMap<String, String>> = std::cell::RefCell::new(std::collections::HashMap::new());
+    }
+    CACHE.with(|c| {
+        c.borrow_mut()
+            .entry(call.to_string())
+            .or_insert_with(|| {
+                let mut im = Impl::new();
+                let _ = im.eval_text(PF);
+                let _ = im.eval_text(call);
+                format!("{:?}", im.vm.last_stacktrace())
+            })
+            .clone()
+    })
+}
+
 fn baseline_trace() -> String {
     let mut im = Impl::new();
     let _ = im.eval_text(PF);
@@ -333,6 +357,8 @@ fn run_case(st: &mut St, acc: &mut Acc, case: &Case) {
     if st.pair.is_none() || st.used >= 64 {
         let mut im = Impl::new();
         let mut m = new_model(&im);
+        // one program recurses 20 000 deep in its setup
+        m.step_limit = 4_000_000;
         let f = parse_forms(PF).unwrap().remove(0);
         let _ = im.eval(&f);
         let _ = m.eval_form(&f);
@@ -410,6 +436,14 @@ fn run_case(st: &mut St, acc: &mut Acc, case: &Case) {
                         if matches!(irs, ImplOut::Panic(_)) { "panic".into() } else { "sliced-session-differs".into() },
                         json!({"form_index": i, "form": t, "uninterrupted": ir.show(), "sliced_budget_7": irs.show(), "trace_uninterrupted": ta, "trace_sliced": tb}),
                     ));
+                    break;
+                }
+            }
+            if t == "(pf 100)" {
+                let tr = format!("{:?}", im.vm.last_stacktrace());
+                let want = baseline_trace_for("(pf 100)");
+                if tr != want {
+                    failure = Some(("stack-trace-differs".into(), json!({"form_index": i, "form": t, "expected_frames": want.matches("StackFrame").count(), "observed_frames": tr.matches("StackFrame").count()})));
                     break;
                 }
             }
